@@ -60,7 +60,7 @@ def encoder(ctx, r, F, T):
     big_c = ("bin", "Lt", C(4224281216), P(1))
     slice_ = ("call", "core::array::<impl core::ops::Index<I> for [T; N]>::index",
               (("ref", TOP), ("agg", "adt:core::ops::Range::Range", (bottom, top))))
-    bs = ("call", "core::slice::<impl [T]>::binary_search", (slice_, ("ref", ("lv", 1))))
+    bs = ("call", "core::slice::<impl [T]>::binary_search", (slice_, ("ref", P(1))))
     some = lambda v: ("agg", "adt:core::option::Option::Some", (("agg", "adt:length::FuzzyHashLengthEncoding::FuzzyHashLengthEncoding", (v,)),))
     want = {
         "zero": ([(zero_c, True)], some(C(0))),
